@@ -28,6 +28,8 @@ ROOT = Path(__file__).resolve().parent.parent
 REPO = Path(os.environ.get("VERIF_REPO", "/repo"))
 BUILD = Path(os.environ.get("VERIF_BUILD_ROOT", str(ROOT / ".build")))
 LEAN = Path(os.environ.get("VERIF_LEAN_DIR", str(ROOT / "lean")))
+# where evidence/ and replays/ are written (overridden when a check is pointed at a scratch tree)
+OUT = Path(os.environ.get("VERIF_OUT_ROOT", str(ROOT)))
 HOOK_HEADER = ROOT / "harness" / "verif_hooks.h"
 NCPU = os.cpu_count() or 4
 
@@ -403,7 +405,7 @@ def match_known(known, pid, text):
 # ---------------------------------------------------------------- the check
 
 def write_replay(pid, name, obj):
-    d = ROOT / "replays" / pid
+    d = OUT / "replays" / pid
     d.mkdir(parents=True, exist_ok=True)
     p = d / name
     p.write_text(json.dumps(obj, indent=1))
@@ -658,8 +660,8 @@ def run_check(pid, tier="quick", seed=None, replay=None):
                configs=configs, exhaustive=bool(spec.get("exhaustive", {}).get(tier, False)))
     ev["violations"] = len(violations)
     ev["wall_s"] = round(time.time() - t0, 2)
-    (ROOT / "evidence").mkdir(exist_ok=True)
-    (ROOT / "evidence" / ("%s.json" % pid)).write_text(json.dumps(ev, indent=1))
+    (OUT / "evidence").mkdir(parents=True, exist_ok=True)
+    (OUT / "evidence" / ("%s.json" % pid)).write_text(json.dumps(ev, indent=1))
     log("%s %s: %d ops, %d distinct non-trivial, %d corr diffs, %d oracle fails (%d known), %d/%d theorems, %.1fs" % (
         pid, tier, evaluations, len(nontrivial), len(corr_diffs), len(oracle_fails),
         len(oracle_fails) - len(new_fails), discharged, len(thms), time.time() - t0))
